@@ -75,7 +75,7 @@ def run(ctx):
         "the hand-written recursion scheme of coq/thm/AKExpr.v (pattern-checked by the translator, executed against the implementation here)",
     ]
     ctx.assumptions += [
-        "positive semi-definiteness of Matern32/52, ExpQuad, Exponential, RatQuad Gram matrices is NOT proved (Bochner's theorem is not in the installed libraries); the smallest eigenvalue of sampled Gram matrices is tested as support only",
+        "positive semi-definiteness of Linear, ExpQuad and integer-alpha RatQuad Gram matrices is proved (C05_linear_gram_psd, C05_expquad_gram_psd, C05_ratquad_*); for Matern32/52, Exponential and RatQuad with non-integer alpha it is NOT proved (Bochner's theorem is not in the installed libraries): the smallest eigenvalue of sampled Gram matrices is tested as support only",
         "RatQuad docstring prints the exponent as -alpha*l; code and theorem use -alpha (observation, not a finding)",
         "vmap/expand_dims in Covariance.diag are library behaviour: diag is tied by correspondence only",
     ]
